@@ -9,11 +9,12 @@
   `build()`, each proved below: percent-spelling (raw / %XY in either hex case), extra '/' and raw
   '.'/'..' segments, letter case of type and keys, checksum spelling.  Two spellings with the same
   decoded components therefore give the same PURL and the same canonical string.
-  (Qualifier ORDER independence is stated for the collection in C11 — `same_content_eq`,
-  `insert_commutes` — and exercised by the correspondence stream; see DESIGN.md §7 C02 for what is
-  not yet a single end-to-end theorem.)
+  Qualifier ORDER independence end to end is `qualifier_order_irrelevant` below (over
+  Lemmas/QualOrder.lean): the same `key=value` items joined by '&' in any order, keys in any letter
+  case, empty-valued items anywhere, parse to the same PURL.
 -/
 import PurlModel.Lemmas.Pieces
+import PurlModel.Lemmas.QualOrder
 import PurlModel.Lemmas.NormPaths
 import PurlModel.Lemmas.RustUnicode
 namespace Purl.C02
@@ -50,6 +51,40 @@ theorem spellings_agree (w₁ w₂ : Pieces) (ok₁ : w₁.Ok) (ok₂ : w₂.Ok)
   -- build() only sees the lower-cased type
   unfold buildS buildWith
   simp only [stringShape, strPreviewMut, ok₁.ty_valid, ok₂.ty_valid, Bool.not_true, Bool.false_eq_true, if_false, hty]
+
+/-! ### qualifier order -/
+
+/-- the spelling `w` with its qualifier part replaced by the given items joined with '&' -/
+def withItems (w : Pieces) (items : List Str) : Pieces := { w with quals := some (joinWith '&' items) }
+
+/-- QUALIFIER ORDER IS IRRELEVANT.  Take any spelling and any non-empty list of well-formed
+qualifier items `key=value` (each `(item, k, d)` records the item as written, its lower-cased key and
+its decoded value; keys pairwise distinct ignoring letter case; no raw '&' inside an item; values
+may be empty, in which case the item contributes nothing).  Writing the items in any other order
+gives a string that parses to the same result. -/
+theorem qualifier_order_irrelevant (w : Pieces) (a b : List (Str × Str × Str)) (hperm : a.Perm b) (hne : a ≠ [])
+    (hok : ∀ x ∈ a, ItemOk x.1 x.2.1 x.2.2) (hamp : ∀ x ∈ a, '&' ∉ x.1) (hnd : (a.map (·.2.1)).Nodup)
+    (ok : (withItems w (a.map (·.1))).Ok)
+    (ns name ver sub : Str)
+    (hsub : match w.sub with | some x => decodeSubpath x = .ok sub | none => sub = [])
+    (hns : match w.ns with | some x => decodeNamespace x = .ok ns | none => ns = [])
+    (hname : decode w.name = .ok name)
+    (hver : match w.ver with | some x => decode x = .ok ver | none => ver = []) :
+    parseS U (withItems w (a.map (·.1))).assemble = parseS U (withItems w (b.map (·.1))).assemble := by
+  obtain ⟨q, hqa, hqb⟩ := qualItems_order_irrelevant U a b hperm hok hnd
+  have hbne : b ≠ [] := fun e => hne (by rw [e] at hperm; exact hperm.eq_nil)
+  have okb : (withItems w (b.map (·.1))).Ok := Pieces.Ok.reorder (hperm.map _) ok
+  have da : decodeQualifiers U (joinWith '&' (a.map (·.1))) [] = .ok q := by
+    unfold decodeQualifiers
+    rw [splitOn_joinWith (by simpa using hne) (by simpa using hamp)]
+    exact hqa
+  have db : decodeQualifiers U (joinWith '&' (b.map (·.1))) [] = .ok q := by
+    unfold decodeQualifiers
+    rw [splitOn_joinWith (by simpa using hbne) (by simpa using fun x hx => hamp x (hperm.symm.subset hx))]
+    exact hqb
+  rw [parse_any_spelling U _ ok ns name ver sub q hsub da hns hname hver,
+      parse_any_spelling U _ okb ns name ver sub q hsub db hns hname hver]
+  rfl
 
 /-! ### percent-spelling freedom -/
 
